@@ -97,6 +97,38 @@ def ref_envelope_from_extrema(locs, mags, n, interp_method):
 MODE_MAP = {'upper': 'peaks', 'lower': 'troughs', 'combined': 'abs_peaks'}
 
 
+def pad_with_options(locs, mags, pad_width, n, mag_pad_opts=None, loc_pad_opts=None):
+    """Padding as documented for get_padded_extrema: the extrema *magnitudes* (the values of the signal at the extrema, with
+    their own sign) are extended with np.pad(mode, **mag_pad_opts), the *locations* with np.pad(**loc_pad_opts), repeated
+    until the locations reach below 0 and to at least n. Defaults: median of 1 / odd reflection."""
+    mo = dict(mag_pad_opts) if mag_pad_opts else {'mode': 'median', 'stat_length': 1}
+    lo = dict(loc_pad_opts) if loc_pad_opts else {'mode': 'reflect', 'reflect_type': 'odd'}
+    mm, lm = mo.pop('mode'), lo.pop('mode')
+    locs, mags = np.asarray(locs), np.asarray(mags)
+    w = min(pad_width, locs.size)
+    if w == 0:
+        return locs, mags
+    L, M = np.pad(locs, w, lm, **lo), np.pad(mags, w, mm, **mo)
+    rounds = 0
+    while max(L) < n or min(L) >= 0:
+        L, M = np.pad(L, w, lm, **lo), np.pad(M, w, mm, **mo)
+        rounds += 1
+        if rounds > n + 5:
+            raise RuntimeError('reference padding did not terminate')
+    return L, M
+
+
+def ref_envelope_opts(x, mode='upper', interp_method='splrep', pad_width=2, parabolic_extrema=False, mag_pad_opts=None,
+                      loc_pad_opts=None):
+    """Envelope from first principles with custom np.pad options (own extrema detection, own padding, scipy interpolant)."""
+    x = np.asarray(x, dtype=float).reshape(-1)
+    locs, mags = detect_extrema(x, MODE_MAP[mode], parabolic_extrema)
+    if len(locs) <= 1:
+        return None
+    L, M = pad_with_options(locs, mags, pad_width, len(x), mag_pad_opts, loc_pad_opts)
+    return ref_envelope_from_extrema(L, M, len(x), interp_method)
+
+
 def ref_envelope(x, mode='upper', interp_method='splrep', pad_width=2, parabolic=False):
     x = np.asarray(x, dtype=float).reshape(-1)
     locs, mags = detect_extrema(x, MODE_MAP[mode], parabolic)
